@@ -33,6 +33,13 @@ type Mutex struct {
 
 func (m *Mutex) Lock() {
 	vsched.Acquire(&m.ls, true)
+	if vsched.Inline() {
+		// one goroutine runs everything: a lock that is held will never be released
+		if !m.mu.TryLock() {
+			vsched.InlineDeadlock("Mutex.Lock")
+		}
+		return
+	}
 	m.mu.Lock()
 }
 
@@ -62,6 +69,12 @@ type RWMutex struct {
 
 func (m *RWMutex) Lock() {
 	vsched.Acquire(&m.ls, true)
+	if vsched.Inline() {
+		if !m.mu.TryLock() {
+			vsched.InlineDeadlock("RWMutex.Lock")
+		}
+		return
+	}
 	m.mu.Lock()
 }
 
@@ -73,6 +86,12 @@ func (m *RWMutex) Unlock() {
 
 func (m *RWMutex) RLock() {
 	vsched.Acquire(&m.ls, false)
+	if vsched.Inline() {
+		if !m.mu.TryRLock() {
+			vsched.InlineDeadlock("RWMutex.RLock")
+		}
+		return
+	}
 	m.mu.RLock()
 }
 
